@@ -409,45 +409,46 @@ Section Parsers.
   Inductive pcf_parsed :=
   | PcfParsed (this : member) (ty : option (list tok)) (attrs : list pcf_attr) (parent : option (list pcf_parsed)).
 
+  (* the loop over the leading [instr(...)] groups of one entry; `rec` parses a nested entry *)
+  Fixpoint pcf_brackets (rec : parser pcf_parsed) (n : nat) (attrs : list pcf_attr) (par : option (list pcf_parsed)) (ts : list tok)
+    {struct n} : pres pcf_parsed :=
+    match n with
+    | 0 => Oom "fuel"
+    | S n' =>
+        match ts with
+        | TGroup DBracket content :: rest =>
+            '(instr, c1) <- parse_ident be content ;;
+            '(inner, c2) <- parse_group DParen c1 ;;
+            if str_in instr nested_map_names then
+              '(m, i1) <- try_parse_optional_ident inner ;;
+              '(a, i2) <- try_parse_action i1 ;;
+              if negb (is_empty i2) then lib_err else
+              if negb (is_empty c2) then lib_err else
+              pcf_brackets rec n' (attrs ++ [{| pf_member := m; pf_action := a;
+                                               pf_appl := appl_of_slots nested_map_slots instr |}]) par rest
+            else if String.eqb instr "parent" then
+              match par with
+              | None =>
+                  kids <- parse_terminated rec (fuel_of inner) inner ;;
+                  if negb (is_empty c2) then lib_err else
+                  pcf_brackets rec n' attrs (Some kids) rest
+              | Some _ => Err (MO2o "Cannot have more than one [parent(...)] instruction here")
+              end
+            else Err (MO2o ("Instruction '" ^^ instr ^^ "' is not recognized in this context"))
+        | _ =>
+            '(this, r1) <- parse_member be ts ;;
+            '(ty, r2) <-
+              (if peek_punct ":" r1 then
+                 '(p, r) <- parse_path be (tl1 r1) ;; Ok (Some (print_path p), r)
+               else Ok (None, r1)) ;;
+            Ok (PcfParsed this ty attrs par, r2)
+        end
+    end.
+
   Fixpoint parse_pcf (fuel : nat) (ts : list tok) {struct fuel} : pres pcf_parsed :=
     match fuel with
     | 0 => Oom "fuel"
-    | S f =>
-        (* leading [instr(...)] groups *)
-        (fix brackets (n : nat) (attrs : list pcf_attr) (par : option (list pcf_parsed)) (ts : list tok) {struct n}
-           : pres pcf_parsed :=
-           match n with
-           | 0 => Oom "fuel"
-           | S n' =>
-               match ts with
-               | TGroup DBracket content :: rest =>
-                   '(instr, c1) <- parse_ident be content ;;
-                   '(inner, c2) <- parse_group DParen c1 ;;
-                   if str_in instr nested_map_names then
-                     '(m, i1) <- try_parse_optional_ident inner ;;
-                     '(a, i2) <- try_parse_action i1 ;;
-                     if negb (is_empty i2) then lib_err else
-                     if negb (is_empty c2) then lib_err else
-                     brackets n' (attrs ++ [{| pf_member := m; pf_action := a;
-                                               pf_appl := appl_of_slots nested_map_slots instr |}]) par rest
-                   else if String.eqb instr "parent" then
-                     match par with
-                     | None =>
-                         kids <- parse_terminated (parse_pcf f) (fuel_of inner) inner ;;
-                         if negb (is_empty c2) then lib_err else
-                         brackets n' attrs (Some kids) rest
-                     | Some _ => Err (MO2o "Cannot have more than one [parent(...)] instruction here")
-                     end
-                   else Err (MO2o ("Instruction '" ^^ instr ^^ "' is not recognized in this context"))
-               | _ =>
-                   '(this, r1) <- parse_member be ts ;;
-                   '(ty, r2) <-
-                     (if peek_punct ":" r1 then
-                        '(p, r) <- parse_path be (tl1 r1) ;; Ok (Some (print_path p), r)
-                      else Ok (None, r1)) ;;
-                   Ok (PcfParsed this ty attrs par, r2)
-               end
-           end) (fuel_of ts) [] None ts
+    | S f => pcf_brackets (parse_pcf f) (fuel_of ts) [] None ts
     end.
 
   (* convert_parent_child_field *)
